@@ -114,10 +114,14 @@ func (e editor) clearOnDifferentChoiceCase(existing *Selection, want meta.Meta) 
 		// proceed with edit as planned.
 		return nil
 	}
-	if existingCase == wantCase || existingCase == nil {
-		return nil
+	if existingCase != wantCase && existingCase != nil {
+		if err := e.clearChoiceCase(existing, existingCase); err != nil {
+			return err
+		}
 	}
-	return e.clearChoiceCase(existing, existingCase)
+	// when this choice is itself inside a case of an outer choice, the outer
+	// choice might have a different case selected as well
+	return e.clearOnDifferentChoiceCase(existing, choice)
 }
 
 func (e editor) clearChoiceCase(sel *Selection, c *meta.ChoiceCase) error {
